@@ -9,6 +9,7 @@
 (*   Try{u, got, el_us}               non-blocking receive                                                           *)
 (*   Rel{u, left} / RelAgain{u, left} ReleaseTimer returned; left = len(t.C) afterwards                               *)
 (*   Done                             end of the scenario;    Storm{iters, stale, panics, hung}: see the driver        *)
+(*   Skip{u, op}                      a step of a user that holds no timer (its AcquireTimer panicked): not executed   *)
 (*   Hang{u, op, skipped}             a call did not return within 2 s: no action, the case is rejected               *)
 (* The state is the timer record of TimerPool and every event is replayed with TimerPool's own step functions        *)
 (* (DoNew, DoGet, DoReset, DoFire, DoRecv, DoRelease).  Firing is silent: the replay inserts DoFire only where an     *)
@@ -66,7 +67,9 @@ TryNext == IF ~(StepIs("T") /\ Held # 0) THEN << >>
 RelNext == IF StepIs("X") /\ Held # 0 /\ Ln.left = 0 THEN <<DoRelease(s, Held)>> ELSE << >>            \* B2
 RelAgainNext == IF StepIs("Y") /\ last[Ln.u] # 0 /\ Ln.left = 0 THEN <<DoRelease(s, last[Ln.u])>> ELSE << >>
 
-EvNext == CASE Ln.ev = "Acq" -> AcqNext [] Ln.ev = "AcqPanic" -> AcqPanicNext [] Ln.ev = "Wait" -> WaitNext
+\* a step of a user that holds nothing because its AcquireTimer panicked: not executed
+SkipNext == IF StepIs(Ln.op) /\ ((Ln.op \in {"W", "R", "T", "X"} /\ Held = 0) \/ (Ln.op = "Y" /\ last[Ln.u] = 0)) THEN <<s>> ELSE << >>
+EvNext == CASE Ln.ev = "Skip" -> SkipNext [] Ln.ev = "Acq" -> AcqNext [] Ln.ev = "AcqPanic" -> AcqPanicNext [] Ln.ev = "Wait" -> WaitNext
             [] Ln.ev = "Recv" -> RecvNext [] Ln.ev = "Try" -> TryNext [] Ln.ev = "Rel" -> RelNext
             [] Ln.ev = "RelAgain" -> RelAgainNext [] OTHER -> << >>
 CaseOK == Ln.ev = "Case" /\ ~InCase /\ Ln.kind \in {"scn", "storm"}
